@@ -20,9 +20,15 @@ type access struct {
 // genAccess: every read/write of a field of a struct type of this module, outside tests and
 // outside the verification hooks, with the mutexes syntactically held at that point:
 // a mutex M counts as held after a statement `M.Lock()` / `M.RLock()` of the same function
-// until `M.Unlock()` / `M.RUnlock()` (a deferred unlock keeps it to the end).
+// until `M.Unlock()` / `M.RUnlock()` (a deferred unlock keeps it to the end; an unlock inside a
+// block that ends with `return` ends it for the rest of that block only).  A mutex also counts
+// as held throughout an unexported function or method that is only ever called (never used as a
+// value) and whose every call site holds it ("the caller holds M" helpers).
 func genAccess(pkgs []*packages.Package) {
 	var all []access
+	var calls []callSite
+	decl := map[*types.Func]string{}   // declared function ↦ its name in the table
+	valueUse := map[*types.Func]bool{} // referenced other than as the callee of a call
 	for _, p := range pkgs {
 		if !accessScope[shortPkg(p.PkgPath)] {
 			continue
@@ -38,8 +44,80 @@ func genAccess(pkgs []*packages.Package) {
 					continue
 				}
 				fn := shortPkg(p.PkgPath) + ":" + funcName(fd)
-				all = append(all, accessesOf(p, fn, fd)...)
+				if o, ok := p.TypesInfo.Defs[fd.Name].(*types.Func); ok {
+					decl[o] = fn
+				}
+				as, cs := accessesOf(p, fn, fd)
+				all = append(all, as...)
+				calls = append(calls, cs...)
 			}
+			// function objects used as values (method values, callbacks) can be called from anywhere
+			calleeIdent := map[*ast.Ident]bool{}
+			ast.Inspect(f, func(n ast.Node) bool {
+				if c, ok := n.(*ast.CallExpr); ok {
+					switch fx := c.Fun.(type) {
+					case *ast.Ident:
+						calleeIdent[fx] = true
+					case *ast.SelectorExpr:
+						calleeIdent[fx.Sel] = true
+					}
+				}
+				return true
+			})
+			ast.Inspect(f, func(n ast.Node) bool {
+				if id, ok := n.(*ast.Ident); ok && !calleeIdent[id] {
+					if o, ok := p.TypesInfo.Uses[id].(*types.Func); ok {
+						valueUse[o] = true
+					}
+				}
+				return true
+			})
+		}
+	}
+	// locks held at every call site of a call-only unexported function are held inside it
+	inherited := map[string][]string{}
+	{
+		sites := map[*types.Func][][]string{}
+		for _, c := range calls {
+			sites[c.callee] = append(sites[c.callee], c.locks)
+		}
+		for o, ls := range sites {
+			fn, ok := decl[o]
+			if !ok || o.Exported() || valueUse[o] {
+				continue
+			}
+			common := append([]string(nil), ls[0]...)
+			for _, l := range ls[1:] {
+				var keep []string
+				for _, m := range common {
+					for _, m2 := range l {
+						if m == m2 {
+							keep = append(keep, m)
+						}
+					}
+				}
+				common = keep
+			}
+			if len(common) > 0 {
+				inherited[fn] = common
+			}
+		}
+	}
+	for i := range all {
+		if extra := inherited[all[i].fn]; len(extra) > 0 {
+			set := map[string]bool{}
+			for _, m := range all[i].locks {
+				set[m] = true
+			}
+			for _, m := range extra {
+				set[m] = true
+			}
+			var ls []string
+			for m := range set {
+				ls = append(ls, m)
+			}
+			sort.Strings(ls)
+			all[i].locks = ls
 		}
 	}
 	copies := false
@@ -231,8 +309,15 @@ func baseOrigin(info *types.Info, fd *ast.FuncDecl, e ast.Expr) string {
 	return out
 }
 
-func accessesOf(p *packages.Package, fn string, fd *ast.FuncDecl) []access {
+// a static call of a function of this module, with the mutexes held at the call
+type callSite struct {
+	callee *types.Func
+	locks  []string
+}
+
+func accessesOf(p *packages.Package, fn string, fd *ast.FuncDecl) ([]access, []callSite) {
 	var out []access
+	var calls []callSite
 	info := p.TypesInfo
 	writes := map[ast.Expr]bool{} // selector / index-of-selector expressions in write position
 	markWrite := func(e ast.Expr) {
@@ -297,7 +382,8 @@ func accessesOf(p *packages.Package, fn string, fd *ast.FuncDecl) []access {
 	inRet := func(p token.Pos) (token.Pos, token.Pos) {
 		var f, t token.Pos
 		for _, r := range retBlocks {
-			if r.from <= p && p < r.to && (f == 0 || r.to-r.from > t-f) {
+			// the innermost such block: code after it, in an enclosing block, is reached only around it
+			if r.from <= p && p < r.to && (f == 0 || r.to-r.from < t-f) {
 				f, t = r.from, r.to
 			}
 		}
@@ -377,5 +463,26 @@ func accessesOf(p *packages.Package, fn string, fd *ast.FuncDecl) []access {
 		out = append(out, access{fn: fn, loc: ty + "." + se.Sel.Name, base: baseOrigin(info, fd, se.X), write: writes[se], locks: held(se.Pos())})
 		return true
 	})
-	return out
+	ast.Inspect(fd.Body, func(n ast.Node) bool {
+		c, ok := n.(*ast.CallExpr)
+		if !ok {
+			return true
+		}
+		var obj types.Object
+		switch fx := c.Fun.(type) {
+		case *ast.Ident:
+			obj = info.Uses[fx]
+		case *ast.SelectorExpr:
+			if sel := info.Selections[fx]; sel != nil {
+				obj = sel.Obj()
+			} else {
+				obj = info.Uses[fx.Sel]
+			}
+		}
+		if fo, ok := obj.(*types.Func); ok {
+			calls = append(calls, callSite{fo, held(c.Pos())})
+		}
+		return true
+	})
+	return out, calls
 }
